@@ -135,6 +135,9 @@ func (t *decTr) zexpr(x ast.Expr, env decEnv) string {
 		if id, ok := e.Fun.(*ast.Ident); ok && len(e.Args) == 1 && (id.Name == "float64" || id.Name == "int" || id.Name == "int64") {
 			return t.zexpr(e.Args[0], env)
 		}
+		if id, ok := e.Fun.(*ast.Ident); ok && len(e.Args) == 1 && id.Name == "absInt" {
+			return "(Z.abs " + t.zexpr(e.Args[0], env) + ")"
+		}
 	}
 	return t.fail("unsupported integer expression %T", x)
 }
